@@ -27,9 +27,10 @@ from ..env import LoggerStub, boot
 META = {
     'text': 'TLC proves on the design that splitting at the first newline makes the line sequence independent of '
             'the segmentation (all streams of length <= 7 over {NL,CR,SP,x,y}, all cuts) and that the send lock keeps '
-            'lines whole; every (stream, cut) up to length 4/5 and every sequence of line classes (51 classes: all '
+            'lines whole; every (stream, cut) up to length 4/5 and every sequence of line classes (53 classes: all '
             'request kinds, empty line, invalid UTF-8, broken JSON, missing/extra fields, CR-LF, blanks, > 1024 bytes, '
-            'unknown and dispatcher-colliding actions) up to length 3 (4 on a core subset) is executed on a real '
+            'unknown and dispatcher-colliding actions; all sequences of length <= 2, length 3 over 27 (quick: 9) and '
+            'length 4 over 12 classes) is executed on a real '
             'TCPRequestHandler + Dispatcher + generated module over a fake socket under 3 segmentations; every output '
             'line of these runs and of seeded byte-level fuzzing is judged by TLC (Trace_Wire): one reply per line in '
             'order, reply action / specifier / SECoP error class, UTF-8 and strict JSON, survival of the handler, '
